@@ -404,6 +404,26 @@ func (sc *c11Scenario) laws(s *simrt.Sim, add func(clause, fp, detail string)) {
 			add("value", "MonadIO-method-constructors", fmt.Sprintf("MonadIO.Just(41).Eval()=%v, MonadIO.New(..).Eval()=%v, Just(41).FlatMap(..).Eval()=%v, effect counter %d (want 41, n, 41+, 11)", v1, v2, v3, ran))
 		}
 	}
+	// Eval is synchronous on the caller whatever handlers the MonadIO carries - also handlers that have been
+	// closed meanwhile (fault: the handler is gone): the effect runs once, here, and the value comes back
+	{
+		ran, effTID := 0, -1
+		me := fpgo.MonadIONewGenerics(func() int { ran++; effTID = s.Self().ID; return 7700 + sc.LawSeed })
+		hc := fpgo.Handler.New()
+		me.ObserveOn(hc).SubscribeOn(hc)
+		hc.Close()
+		var eop *Op
+		callerTID := -2
+		et := s.Go("eval-with-closed-handlers", func() {
+			callerTID = s.Self().ID
+			eop = sc.h.Do("eval-with-closed-handlers", "Eval", nil, func() (interface{}, error) { return me.Eval(), nil })
+		})
+		if !s.WaitUntilTimeout(et.Done, 5*time.Minute) {
+			add("value", "Eval-with-closed-handlers-never-returns", fmt.Sprintf("Eval() of a MonadIO whose ObserveOn/SubscribeOn handler has been closed did not return (effect ran %d times)", ran))
+		} else if eop != nil && eop.Panic == "" && (eop.Val != 7700+sc.LawSeed || ran != 1 || effTID != callerTID) {
+			add("value", "Eval-with-closed-handlers", fmt.Sprintf("Eval() of a MonadIO whose handlers are closed returned %v (want %d), effect ran %d times (want 1) on thread T%d (caller T%d)", eop.Val, 7700+sc.LawSeed, ran, effTID, callerTID))
+		}
+	}
 	tp := simrt.NewGenTape(uint64(sc.LawSeed) + 77)
 	id := 1000
 	fBody := genC11Node(tp, 1, &id)
